@@ -194,6 +194,9 @@ func ruleGlobal(c *Ctx) *RuleResult {
 			continue
 		}
 		r.inst("function %s", c.short(fn))
+		if u := E.UnknownOf(fn); len(u) > 0 {
+			r.undecided("%s reaches effects the analysis has no summary for (%s): it cannot be shown to leave package-level state alone", c.short(fn), strings.Join(u, ", "))
+		}
 		bad := 0
 		for _, ap := range E.WritesOf(fn) {
 			if ap.Root >= rGlobal && ap.Root < rFresh {
